@@ -18,7 +18,7 @@ LEVEL_TEXT = {
  "C11": "Bounded symbolic execution of the real naming Service source over every history of 3 operations on two addresses with symbolic instance flags (counters, persistent set and instance map agree after every step) and of the NamingActor registration paths (gRPC / HTTP register, deregister, connection close): the per-connection reverse map matches the stored owners after every step; the namespace / group index and the clean-up of empty services over three services (a service with an instance is never dropped; index == map); counterexamples and sampled paths run on the real Service / NamingActor.",
  "C12": "Bounded symbolic execution of the real naming Service source (query results vs a reference registry, removal ownership, fields of a new registration, the query filter for all flag combinations through the three query entry points: service info, instance list, instance page) and of the NamingActor registration paths: a connection close removes every instance the connection owns and nothing else.",
  "C13": "Bounded symbolic execution of Service::time_check over the real TimeoutSet source with the clock on a grid around the two time-outs (beating instances are never expired, silent ones are marked and removed, unsupervised ones are untouched, instances taken over from another node are supervised) and of the NamingActor's timer path with the clock as a model variable (heartbeats refresh the last-beat time; every expiry is handed to the cluster sync and the subscribers, also at the per-round cut-off).",
- "C14": "Bounded symbolic execution of the real ownership and routing source for every cluster size up to 5, symbolic liveness and all 2^64 hash values, decided by z3; counterexamples replayed against the native build; plus every history of 3-4 timer ticks / pings on a 3-node cluster: the cached owner range follows the live set and the naming actor is told every change.",
+ "C14": "Bounded symbolic execution of the real ownership and routing source for every cluster size up to 5, symbolic liveness and all 2^64 hash values, decided by z3; counterexamples replayed against the native build; plus every history of 3-4 timer ticks / pings on a 3-node cluster: the cached owner range follows the live set and the naming actor is told every change; and what the naming actor does with a range: the services inside it are taken over (their instances from another node become local and supervised), nothing else changes.",
  "C16": "Symbolic evaluation of the real route registration, auth middleware (session lookup answering session / no session / error), login handler (token lifetime), the replicated cache table that stores the sessions (nothing is served past login time + lifetime, whenever the entry is applied; every history of 3-4 requests with a symbolic clock), gRPC dispatcher and token gate source into string/regex/bit-vector SMT queries: route-language inclusion in the checked-path language (including percent-encoded spellings as actix requotes them), decision implication of the middleware, dispatch implication for every gRPC request type; counterexamples confirmed against the real predicates and end to end against the real App.",
  "C17": "Symbolic evaluation of the real console route table, role tables and login middleware source into SMT: unchecked API routes, role monotonicity, write protection, unknown roles, multi-role union, middleware decision; counterexamples confirmed against the real predicates.",
  "C18": "Symbolic evaluation of the privilege algebra and the two listing filters from the real source with an arbitrary privilege group and namespace string. Plus the way a restriction travels from the administrator's create / update request through the stored user record into a new session's group (replayed on a real single-node application). And the console handlers' call sites: every handler whose request names a namespace reaches the data layer only behind a successful permission check on that namespace (43 handlers evaluated from source, including the handler functions of other modules that console routes point to; violations replayed on the real handlers with a restricted session; 9 MCP handlers and 4 mounted OpenAPI handlers are known findings). And the composed configuration key: a key that passed ConfigKey::is_valid survives build_key -> from for arbitrary strings, and a handler hands a key built from request strings to the raft route only behind that gate.",
